@@ -291,7 +291,9 @@ fn rule(state: &mut BlockState, silent: bool) -> bool {
             }
         } else {
             state.line = next_line;
+            state.level += 1;
             state.md.block.tokenize(state);
+            state.level -= 1;
         }
 
         // If any of list item is tight, mark list as tight
